@@ -13,13 +13,13 @@ REAL = ["train_* routines", "replay buffers", "losses/optimisers/target updates"
 STUB = ["environment (SimEnv)", "action-space sampler (recording subclass of the real space)", "networks are real tiny MLPs with probes"]
 ASSUMPTIONS = ["stored rows are read through the documented public `buffer` mapping and len()",
                "SimEnv ignores actions (bookkeeping properties do not depend on closed-loop dynamics)"]
-TIERS = {"quick": {"runs": 66}, "thorough": {"runs": 1500}}
-REQUIRED = ["stored_rows_checked", "stored_first_transition_after_reset", "acting_on_current_obs", "capacity_smaller_than_run", "one_step_episode"]
+TIERS = {"quick": {"runs": 80}, "thorough": {"runs": 1500}}
+REQUIRED = ["datasets_checked", "dataset_with_several_episodes", "parallel_environments", "stored_rows_checked", "stored_first_transition_after_reset", "acting_on_current_obs", "capacity_smaller_than_run", "one_step_episode"]
 REQUIRED_QUICK = REQUIRED
 SHRINK_LISTS = [["env", "script"]]
 SHRINK_INTS = []
 CLAUSES = ["C01.a", "C01.b", "C01.c", "C01.d"]
-ADAPTERS = ["ddpg", "td3", "td3_lap", "sac", "dqn", "nature_dqn", "ddqn", "ddqn_per", "td7", "mrq", "pets"]
+ADAPTERS = ["ddpg", "td3", "td3_lap", "sac", "dqn", "nature_dqn", "ddqn", "ddqn_per", "td7", "mrq", "pets", "reinforce", "actor_critic", "a2c", "ppo", "cmaes"]
 
 
 def make_plan(rng, tier, index):
